@@ -11,12 +11,13 @@
                 backward_shift_keeps_chains, evict_exactly_min_others,
                 cas_only_on_identity, compare_delete_only_on_identity,
                 insert_never_evicts_own_key, capacity_respected_sequentially,
-                segment_len_is_reachable, count_eq_entries_at_quiescence,
+                segment_len_is_reachable, clear_resets, count_eq_entries_at_quiescence,
                 no_nested_locks, gen_grow_len_pow2_tie
      partial  : occupancy_bound_partial (entries <= counter + calls in flight,
                 every schedule; the bound against the capacity is refuted)
-     refuted  : occupancy_bound_refuted (finding swc-sparse-scan-race),
-                count_eq_entries_with_clear_refuted (finding clear-count-race) *)
+     refuted  : occupancy_bound_refuted (finding swc-sparse-scan-race)
+     (count_eq_entries_at_quiescence now covers Clear: the defect clear-count-race
+      was fixed in /repo by aae41ee and the model follows the repaired code) *)
 From Sdns Require Import Common.Base Gen.C16 C16.Model C16.Conc.
 From Sdns Require Import C16.Proofs_cyc C16.Proofs_tab C16.Proofs_wf C16.Proofs_more C16.Proofs_seg C16.Proofs_hist C16.Proofs_conc C16.Proofs_evict C16.Proofs_cap.
 Open Scope nat_scope.
@@ -134,6 +135,15 @@ Theorem capacity_respected_sequentially : forall (mix : N -> N) (sidx : nat -> N
 Proof. exact swc_within_capacity. Qed.
 Print Assumptions capacity_respected_sequentially.
 
+(* 9c. Clear empties the map and the counter. *)
+Theorem clear_resets : forall (mix : N -> N) (sidx : nat -> N -> nat),
+  (forall n k, 0 < n -> sidx n k < n) ->
+  forall m, SWF mix sidx m ->
+  SWF mix sidx (sm_clear m) /\ nsegs (sm_clear m) = nsegs m /\ sm_count (sm_clear m) = 0%Z /\
+  forall k, sabs sidx (sm_clear m) k = None.
+Proof. exact sm_clear_spec. Qed.
+Print Assumptions clear_resets.
+
 (* 10. Len() = number of entries ForEach yields = number of reachable keys. *)
 Theorem segment_len_is_reachable : forall (mix : N -> N) (sidx : nat -> N -> nat),
   (forall n k, 0 < n -> sidx n k < n) ->
@@ -144,12 +154,13 @@ Proof. exact sm_len_all. Qed.
 Print Assumptions segment_len_is_reachable.
 
 (* 11. Concurrency, for every schedule of the atomic steps of any number of
-       threads running SetWithCap/Set/PutIfNotExists/Del/CAS/CompareAndDelete:
+       threads running SetWithCap/Set/PutIfNotExists/Del/CAS/CompareAndDelete/Clear
+       (Clear as repaired by aae41ee: per-segment subtraction under the lock):
        once all calls have returned, Len() equals the number of reachable entries. *)
 Theorem count_eq_entries_at_quiescence : forall (mix : N -> N) (sidx : nat -> N -> nat) (eoff : N -> Z),
   (forall n k, 0 < n -> sidx n k < n) ->
   forall m0 progs sched,
-  SWF mix sidx m0 -> (forall p, In p progs -> ~ In CClear p) ->
+  SWF mix sidx m0 ->
   let s := run mix sidx eoff (init m0 progs) sched in
   quiescent s = true ->
   SWF mix sidx (c_map s) /\ sm_len (c_map s) = entries s /\
@@ -157,14 +168,6 @@ Theorem count_eq_entries_at_quiescence : forall (mix : N -> N) (sidx : nat -> N 
   forall k v, In (k, v) (sm_all (c_map s)) <-> sabs sidx (c_map s) k = Some v.
 Proof. exact Proofs_conc.count_eq_entries_at_quiescence. Qed.
 Print Assumptions count_eq_entries_at_quiescence.
-
-(* ... but not when Clear() runs concurrently with a writer. *)
-Theorem count_eq_entries_with_clear_refuted :
-  exists progs sched,
-    let s := c_run (init (new_segmap 4 0) progs) sched in
-    quiescent s = true /\ sm_len (c_map s) = 0%Z /\ entries s = 1%Z /\ sm_all (c_map s) = [(15%N, 2%N)].
-Proof. exact count_eq_entries_with_clear_refuted_lemma. Qed.
-Print Assumptions count_eq_entries_with_clear_refuted.
 
 (* 12. Capacity.  Full statement: entries s <= cap + inside s in every reachable
        state of writers that all insert with capacity cap >= 1.  Refuted: *)
@@ -180,7 +183,7 @@ Print Assumptions occupancy_bound_refuted.
 Theorem occupancy_bound_partial : forall (mix : N -> N) (sidx : nat -> N -> nat) (eoff : N -> Z),
   (forall n k, 0 < n -> sidx n k < n) ->
   forall m0 progs sched,
-  SWF mix sidx m0 -> (forall p, In p progs -> ~ In CClear p) ->
+  SWF mix sidx m0 ->
   let s := run mix sidx eoff (init m0 progs) sched in
   (entries s <= sm_count (c_map s) + inside s)%Z.
 Proof. exact Proofs_conc.occupancy_bound_partial. Qed.
